@@ -51,7 +51,8 @@ def warm():
 
 
 def gen_controller(rng):
-    kind = c08._wchoice(rng, [("discrete", 5), ("discrete_step", 2), ("continuous", 3), ("const", 2), ("probe", 3)])
+    kind = c08._wchoice(rng, [("discrete", 5), ("discrete_step", 2), ("continuous", 3), ("const", 2), ("probe", 3),
+                                ("characteristic", 2)])
     lvl = rng.choice([0, 0, 0, 1, 2, [0, 1], [1, 2]])
     c = {"op": "controller", "kind": kind, "level": lvl, "order": rng.choice([0, 0, 1, 2, -1]),
          "in_service": rng.random() < 0.9}
@@ -62,6 +63,9 @@ def gen_controller(rng):
                  bounds=rng.random() < 0.8, hunting=rng.choice([None, None, 3]))
     elif kind == "const":
         c.update(element=rng.choice(["load", "sgen"]), variable="p_mw", row=rng.randrange(100))
+    elif kind == "characteristic":
+        # Q(V) droop of an sgen: q_mvar as a piecewise linear function of the bus voltage
+        c.update(row=rng.randrange(100), slope=rng.choice([0.5, 2.0, 5.0]), tol=rng.choice([1e-3, 1e-4]))
     else:
         c.update(mode=rng.choice(["after_n", "after_n", "never", "flipflop"]), n=rng.randint(0, 6),
                  target=rng.randrange(100))
@@ -224,6 +228,20 @@ def _create_controller(net, op, Probe, Discrete, Continuous, Const):
                                                       tol=op["tol"], hunting_limit=op["hunting"], **common)
             return Continuous(net, int(r), op["vm_set"], tol=op["tol"], side=side, element=el,
                               check_tap_bounds=op["bounds"], **common)
+        if kind == "characteristic":
+            from pandapower.control import CharacteristicControl
+            from pandapower.control.util.characteristic import Characteristic
+            r = ops.pick_row(net, "sgen", op["row"])
+            if r is None:
+                return None
+            for obj in net.controller.object.values:       # one Q(V) controller per sgen (see tap controllers)
+                if getattr(obj, "output_element", None) == "sgen" and \
+                        int(np.atleast_1d(obj.output_element_index)[0]) == int(r):
+                    return None
+            k = op["slope"]
+            ch = Characteristic(net, x_values=[0.9, 1.0, 1.1], y_values=[0.1 * k, 0.0, -0.1 * k])
+            return CharacteristicControl(net, "sgen", "q_mvar", int(r), "res_bus", "vm_pu",
+                                         int(net.sgen.at[r, "bus"]), ch.index, tol=op["tol"], **common)
         if kind == "const":
             r = ops.pick_row(net, op["element"], op["row"])
             if r is None:
@@ -429,7 +447,9 @@ def _check_return(net, ctrls, op, kw, bad, ctx, multi, events=()):
         if o["kind"] == "probe":
             continue
         try:
-            conv = bool(c.is_converged(net))
+            # evaluated on a copy: is_converged of some controllers (CharacteristicControl) writes to the net it is
+            # given when it is not converged - the returned state itself must stay as run_control left it
+            conv = bool(c.is_converged(copy.deepcopy(net)))
         except Exception as e:
             bad(3, f"is_converged raised on return:{o['kind']}", f"controller {c.index}: {type(e).__name__}: {e!s:.100}")
             continue
@@ -468,7 +488,8 @@ def _check_return(net, ctrls, op, kw, bad, ctx, multi, events=()):
                 if pe is None:
                     vm2 = float(probe.res_bus.vm_pu.at[int(c.trafobus)])
                     dist2 = max(lo_v - vm2, vm2 - hi_v, 0.0)
-                    if dist2 < dist - 1e-7:
+                    # (a real improvement: at least 1e-3 p.u. - a tap that hardly moves this bus cannot help)
+                    if dist2 < dist - 1e-3:
                         bad(4, f"{o['kind'].split('_')[0]}: tap at the limit opposite to the needed direction",
                             f"{el} {r}: vm {vm:.5f} outside [{lo_v:.5f}, {hi_v:.5f}] with tap {tp} at a limit of "
                             f"[{lo}, {hi}], but one step back into the range gives vm {vm2:.5f} (closer to the band)")
